@@ -332,6 +332,23 @@ theorem C15_rjust (md : Nat) (f : FmtStr) (w : Int) (r : FmtStr) (h : rjust md f
       · rw [if_neg he] at h; injection h with h
         rw [← h]; simp [add, Chunk.cells, C14_remove]
 
+/-- `ljust` / `rjust` without fill character never fail on a FmtStr with at least one run (`FmtStr()` raises
+    IndexError in `shared_atts`). -/
+theorem C15_just_total (md : Nat) (f : FmtStr) (w : Int) (hne : f ≠ []) :
+    (∃ r, ljust md f w none = .ok r) ∧ (∃ r, rjust md f w none = .ok r) := by
+  cases f with
+  | nil => exact absurd rfl hne
+  | cons hd tl =>
+    have hs : ∃ sh, sharedAtts (hd :: tl) = .ok sh := ⟨_, rfl⟩
+    obtain ⟨sh, hs⟩ := hs
+    constructor
+    · unfold ljust
+      simp only [C15_fmtstrAtts _ _ _ (spaces_clean _), hs]
+      split <;> split <;> exact ⟨_, rfl⟩
+    · unfold rjust
+      simp only [C15_fmtstrAtts _ _ _ (spaces_clean _), hs]
+      split <;> split <;> exact ⟨_, rfl⟩
+
 /-- How the exact behaviour relates to the statement's wording: every original character keeps at least the
     shared attributes and shows only attributes it had; the padding shows only shared attributes - ALL of them
     exactly when no bg is shared; with a shared bg the padding carries that bg and nothing else. -/
@@ -434,6 +451,14 @@ theorem C15_delegate_witness :
           Except PyErr (StrResult Unit)))
       = .ok (.fmt [⟨['x'], { fg := some 1 }⟩]) := by
   decide +kernel
+
+/-- The full statement is FALSE for the model (hence the finding D27, not a gap in the proof). -/
+theorem C15_delegate_full_statement_false : ¬ C15_delegate_full_statement := by
+  intro h
+  have := h Generated.intMaxStrDigits [⟨['a'], {}⟩]
+    (fun _ => .ok (.str [Curtsies.ESC, '[', '3', '1', 'm', 'x', Curtsies.ESC, '[', '3', '9', 'm'])) _ {} rfl (by decide)
+  rw [C15_delegate_witness] at this
+  revert this; decide +kernel
 
 /-- `sh` is exactly the formatting shared by all characters of `f`: on every character, and containing every
     dict that is on every character (`C14_shared` + `C14_shared_complete`). -/
